@@ -3,7 +3,7 @@ import numpy as np
 
 from vmon import events
 from vmon.gen import patterns, planted, replcase
-from vmon.oracle.util import deep_diff, clone
+from vmon.oracle.util import elements_of, deep_diff, clone
 
 PROPERTY = "C04"
 RULE = ("Planted structures with non-overlapping copies (any pose, 0-3 faces crossed, all cell classes), bystanders near "
@@ -136,8 +136,8 @@ def run_case(case, ctx):
     in_match = set()
     for k in sel:
         in_match |= {in_ids[i] for i in found[k]}
-    sel_el, s_lab, s_mass = list(S.elements), list(S.atom_type_labels), list(S.atom_type_masses)
-    o_el, o_lab, o_mass = list(out.elements), list(out.atom_type_labels), list(out.atom_type_masses)
+    sel_el, s_lab, s_mass = elements_of(S), list(S.atom_type_labels), list(S.atom_type_masses)
+    o_el, o_lab, o_mass = elements_of(out), list(out.atom_type_labels), list(out.atom_type_masses)
     nby = 0
     for i, c in originals:
         j = pos_in.get(c)
